@@ -330,6 +330,7 @@ class ValuesProfile(FieldProfile):
                 for k in range(len(tgt)):
                     if rng.random() < 0.6:
                         tgt[k] = float(mm.region.pmin[k]) if rng.random() < 0.65 else float(mm.region.pmax[k])
+                return {"op": "F.line", "on": s, "p1": p1, "p2": p2, "n": [2, 3, 5, 6, 7, 8, 9, 11, 12, 13], "scalar": rng.random() < 0.5}
             return {"op": "F.line", "on": s, "p1": p1, "p2": p2, "n": rng.choice([2, 3, 5, 9, 8, 12]), "scalar": rng.random() < 0.5}
         if r < 0.92 and dtype in (None, "float"):
             return {"op": "F.setnorm", "on": s, "spec": {"t": "const", "v": rng.choice([1.0, 3.0, 1e-3])}}
